@@ -32,7 +32,7 @@ def Num.key : Num → Sum (Int × Nat) Bool
 
 /-- Python `==` between two numbers: exact comparison of the denoted reals (CPython compares
     int with float exactly, not after rounding). -/
-def Num.eq (a b : Num) : Bool := a.key == b.key
+def Num.eq (a b : Num) : Bool := decide (a.key = b.key)
 
 /-- JSON values as the library manipulates them: "sanitized" values plus tuples (return values of
     simple operations such as `walk` contain tuples). -/
@@ -45,6 +45,11 @@ inductive Json where
   | tup (xs : List Json)
   | obj (kvs : List (String × Json))
 deriving Repr, Inhabited
+
+/-- `key in value2 and f(value2[key])` on a dict with distinct keys -/
+def lookupWith (f : Json → Bool) (k : String) : List (String × Json) → Bool
+  | [] => false
+  | (k', v') :: b => if k = k' then f v' else lookupWith f k b
 
 mutual
 /-- `JsonUtil.is_equal` -/
@@ -67,10 +72,7 @@ def isEqualL : List Json → List Json → Bool
 /-- `for key, subvalue in value1.items(): key in value2 and is_equal(subvalue, value2[key])` -/
 def subObj : List (String × Json) → List (String × Json) → Bool
   | [], _ => true
-  | (k, v) :: rest, b => lookupEq k v b && subObj rest b
-def lookupEq (k : String) (v : Json) : List (String × Json) → Bool
-  | [] => false
-  | (k', v') :: b => if k = k' then isEqual v v' else lookupEq k v b
+  | (k, v) :: rest, b => lookupWith (isEqual v) k b && subObj rest b
 end
 
 /-- Python hashable values produced by `to_hashable` (bools never occur: they become tuples). -/
